@@ -63,6 +63,44 @@ def judge(C, np, span, arr, lb, ub, out, rp):
                 C.issue('ones-not-upper-bound', 'oracle', rp, out=out.tolist())
 
 
+def held_population(L, np, p):
+    """A caller that fetches the population of a hypercomplex space ONCE, keeps the agent objects, moves them in place
+    (`position +=`, or a new array through the agent's position setter) and calls `space.check_limits()` after every move
+    without reading `space.agents` again; after every call each kept agent must be inside the unit box (looked at through
+    the kept references first, through the space at the very end).  Deterministic given `p`; returns the failures."""
+    np.random.seed(p['seed'])
+    sp = L['HyperSpace'](n_agents=p['n_agents'], n_variables=p['v'], n_dimensions=p['d'], n_iterations=1,
+                         lower_bound=p['lb'], upper_bound=p['ub'])
+    held = list(sp.agents)
+    bad = []
+
+    def outside(a):
+        q = np.asarray(a.position, dtype=float)
+        return int(np.sum(~((q >= 0) & (q <= 1))))
+
+    for step in range(p['steps']):
+        for i, a in enumerate(held):
+            delta = np.random.normal(0, p['sigma'], a.position.shape)
+            if i == step % len(held):
+                delta = np.abs(delta) + 1.5        # this one certainly leaves the box (upwards; downwards on odd steps)
+                if step % 2:
+                    delta = -delta
+            if p['assign']:
+                a.position = a.position + delta
+            else:
+                a.position += delta
+        for _ in range(p['calls']):
+            sp.check_limits()
+        n_out = sum(outside(a) for a in held)
+        if n_out:
+            bad.append(dict(step=step, components_outside=n_out, example=[x.position.tolist() for x in held if outside(x)][0]))
+    if len(sp.agents) != len(held) or any(x is not y for x, y in zip(sp.agents, held)):
+        bad.append(dict(step='end', population_replaced=True))
+    elif sum(outside(a) for a in sp.agents):
+        bad.append(dict(step='end', components_outside=sum(outside(a) for a in sp.agents)))
+    return bad
+
+
 def check(ctx):
     L = lib.load()
     np = L['np']
@@ -179,6 +217,17 @@ def check(ctx):
                 s = hc.span(a.position, lb, ub)
                 judge(C, np, hc.span, a.position, lb, ub, s, dict(how='span', arr=a.position.tolist(), lb=lb, ub=ub))
             C.case(key=('hyper', tuple(lb), tuple(ub), v, d), nontrivial=bmode != 'unit', kind='hyperspace')
+        # ... also for a caller that keeps the agent objects and never asks the space for them again between checks
+        for k in range(6 if ctx['tier'] == 'quick' else 40):
+            v, d = C.rng.randint(1, 4), C.rng.randint(1, 4)
+            bmode, lb, ub = gen_bounds(C.rng, v)
+            p = dict(how='hyper-held', lb=lb, ub=ub, v=v, d=d, n_agents=C.rng.randint(1, 5), steps=C.rng.randint(3, 6),
+                     sigma=C.rng.choice([0.4, 3.0]), assign=bool(k % 2), calls=1 + (k % 3 == 2), seed=C.rng.randrange(1 << 30))
+            bad = held_population(L, np, p)
+            if bad:
+                C.issue('hyper-agent-outside-unit-box', 'oracle', p, scenario='population kept by the caller, check_limits() after every move',
+                        first=bad[0], failing_steps=[b['step'] for b in bad])
+            C.case(key=('hyper-held', tuple(lb), tuple(ub), v, d, p['n_agents'], p['steps'], p['assign']), nontrivial=True, kind='hyperspace-held-population')
         # optimisation runs on hypercomplex spaces with bounds outside [0, 1]: every evaluated point in the unit box
         import runpass, runlevel
         kinds = ['ABC', 'HS', 'SA', 'BHA', 'PSO', 'CS', 'FPA', 'BA'] if ctx['tier'] == 'quick' else [k for k in runlevel.KINDS if k != 'GP']
@@ -219,6 +268,8 @@ def replay(prop, payload):
         finally:
             drv.close()
         return any(not i.get('known') for i in r['issues']['C01'])
+    if payload.get('how') == 'hyper-held':
+        return bool(held_population(L, np, payload))
     if payload.get('how') != 'span':
         res = check(dict(seed=0, tier='quick', prop=prop))
         return any(i['layer'] == 'oracle' and not i.get('known') for i in res['issues'])
